@@ -193,6 +193,20 @@ def check_cli(res, net, names, aliases, elements, case, known):
             res.violation("oracle", f"Enzo patch typedefs.h adds the fields {new[:8]} (FieldUndefined {fu and fu.group(1)}), expected one field per species "
                                     f"Enzo does not define: {want_new[:8]} from 104 (species {names[:8]})", c2)
         res.count("enzo-typedefs")
+    # one identifier per species in the patch sources: a species Grackle already knows (whatever its spelling) is addressed by
+    # Grackle's field name (De, HI, HII ...), never by a second name of its own
+    galias = {canon(nm): al for nm, al in zip(EnzoPatch.grackle_species_name, EnzoPatch.grackle_defined_alias)}
+    used = set()
+    for f in sorted((p / "enzo").rglob("*")):
+        if f.is_file():
+            used |= set(re.findall(r"\b([A-Za-z0-9_]+)Num\b", f.read_text(errors="ignore")))
+    for nm, al in zip(names, aliases):
+        want_id = galias.get(canon(nm), al)
+        if want_id != al and al in used:
+            res.violation("oracle", f"Enzo patch: species {nm!r} is the field {want_id}Num of Enzo / Grackle but the patch sources also use {al}Num "
+                                    f"(two identifiers for one species; {al}Num is declared nowhere)", c2)
+        elif want_id not in used:
+            res.violation("oracle", f"Enzo patch: species {nm!r} should be addressed as {want_id}Num but the patch sources never use that identifier", c2)
     mns = re.search(r"#define ENZO_NSPECIES (\d+)", hz)
     want_ns = len(names) + len(EnzoPatch.grackle_species_name) - sum(1 for nm in names if canon(nm) in grackle_names) - 1
     if not mns or int(mns.group(1)) != want_ns:
